@@ -78,6 +78,7 @@ Proof. eexists. split; [vm_compute; reflexivity|reflexivity]. Qed.
 (* the functions this property's model is an abstraction of still have the control / locking / shared-state skeleton the
    model was written against (Skeletons.v, by hand; Extracted.v, regenerated from /repo) *)
 Theorem c03_code_skeletons :
+  JRGen.Extracted.effects_resetReadDeadline = JR.Skeletons.resetReadDeadline /\
   JRGen.Extracted.effects_handleResponse = JR.Skeletons.handleResponse /\
   JRGen.Extracted.effects_closeInFlight = JR.Skeletons.closeInFlight /\
   JRGen.Extracted.effects_tryReconnect = JR.Skeletons.tryReconnect /\
